@@ -466,7 +466,7 @@ static void prologue(void) {
         OUT("count-init sys %s@%c %u", sname[s], kinds[k], atomic_load(&occ[s][k])); }
     wd = NEW(uv_timer_t);
     uv_timer_init(loop, wd);
-    uv_timer_start(wd, wd_cb, 800, 0);
+    uv_timer_start(wd, wd_cb, 1500, 0);
     uv_unref((uv_handle_t*) wd);
   }
 }
